@@ -4,6 +4,7 @@ CONSTANTS
   NonceWin = 10
   AgeWin = 10
   MAXV = 1000000000
+  PragueFrom = 0
   Senders = {"s1", "s2"}
   Signers = {"k1", "k2"}
   MaxLen = 40
